@@ -346,7 +346,20 @@ func c19Payload(e *Env) func(*rapid.T) {
 		enc := p1.(*consensus.Payload).MarshalUnsigned()
 		enc0 := bytes.Clone(enc) // what the encoder returned, as a queue or a signer would keep it
 		dec := new(consensus.Payload)
-		err := dec.UnmarshalUnsigned(enc)
+		// (the decoder must fail cleanly on whatever it does not accept - its own encoder's pre-commits included - so the
+		// call runs under panic capture; seeded change C19n)
+		var err error
+		if pm := func() (pm string) {
+			defer func() {
+				if r := recover(); r != nil {
+					pm = fmt.Sprint(r)
+				}
+			}()
+			err = dec.UnmarshalUnsigned(enc)
+			return ""
+		}(); pm != "" {
+			viol("decoder-panics", fmt.Sprintf("decoding the encoding of a %s payload (type byte %#x) panics: %s", d.T, byte(d.T), pm))
+		}
 		if err != nil {
 			cl["decoder_rejects_"+d.T.String()] = 1
 			// pre-commit and anti-MEV commit bodies are not decodable by the reference decoder: a clean rejection
